@@ -165,6 +165,23 @@ def judge_pop(scn, out):
     return None
 
 
+def live_waiters(ctx, m):
+    """number of requests that are still waiting for the attempt in the counterexample"""
+    n = 0
+    for w in getattr(ctx, "ws", []):
+        v = m.eval(w.alive, model_completion=True) if z3.is_expr(w.alive) else w.alive
+        if z3.is_true(v) or v is True:
+            n += 1
+    return n
+
+
+def judge_h2_followers(scn, out):
+    """one HTTP/2 connection must carry the owner, its followers and the later request"""
+    if out.get("result", "").startswith(("panic", "crash")):
+        return True
+    return int(out.get("dials", "1")) > 1 or out.get("later") != "200" or int(out.get("first_ok", "0")) < int(scn.get("followers", 0)) + 1
+
+
 def extract_release(p, m):
     """the release-path counterexamples that have a public-API replay: a closed connection handed
     back (delivered to a waiting request), or an open one not kept"""
@@ -264,13 +281,17 @@ def obligations(prog, src, tier, seed, which, select=None):
         ctx = p.ctx
         if which == "C04" and not ctx.share and 1 not in connecting(ctx.inner_cell.v):
             return {"family": "pool_preempted_owner", "cont": 0, "c": "h2"}
+        if ctx.share and ctx.max_idle > 0:
+            # a shared (HTTP/2) connection: replayed as "owner dials, the live waiters follow its attempt, a later
+            # request must ride on the same connection"
+            return {"family": "pool_h2_followers", "max_idle": ctx.max_idle, "followers": live_waiters(ctx, m)}
         return {"family": "pool_release", "max_idle": ctx.max_idle, "idle_before": ctx.ni, "waiters": ctx.nw, "shareable": int(ctx.share)}
 
     obs.append({"name": f"{which.lower()}_pool_push_step", "family": "pool_push", "funcs": ["client::pool::PoolInner::push", "client::pool::idle::IdleConnections::push", "client::pool::Pooled::take"],
                 "bound": "pre-state: 0..2 waiters for the origin (each still waiting or gone: symbolic), 0..2 idle entries, shareable or not, another origin populated or not, max_idle_per_host in {0,1,2,8} >= current idle count",
                 "doc": "one push from an arbitrary bounded valid state: non-shareable connection ends in exactly one place (first live waiter, else idle list); shareable: every live waiter gets a zero-token handle and the connection is kept; other origins untouched; idle count <= max_idle_per_host",
                 "run": run_push, "check": check_push, "crosscheck": False, "max_paths": 20000, "cex_extract": extract_push,
-                "judge": lambda scn, out: out.get("result", "").startswith(("panic", "crash")) or (out.get("rc") == "timeout" if scn.get("family") == "pool_preempted_owner" else int(out.get("idle_after", "0")) > int(scn["max_idle"]))})
+                "judge": lambda scn, out: out.get("result", "").startswith(("panic", "crash")) or (out.get("rc") == "timeout" if scn.get("family") == "pool_preempted_owner" else judge_h2_followers(scn, out) if scn.get("family") == "pool_h2_followers" else int(out.get("idle_after", "0")) > int(scn["max_idle"]))})
 
     # ------------------------------------------------------------------------------------------------
     # PoolInner::pop
@@ -335,7 +356,13 @@ def obligations(prog, src, tier, seed, which, select=None):
         ni = ctx.choose([(True, 0), (True, 1)], "idle before")
         nw = ctx.choose([(True, 0), (True, 1)], "requests waiting for a connection of this origin")
         ctx.share, ctx.tok, ctx.pool_alive, ctx.script, ctx.cancel_after, ctx.ni = share, tok, pool_alive, script, cancel_after, ni
-        inner = build_inner(ctx, nw, ni, False, False, False, 8)
+        # the pool's configuration is something the hand-back path could read (round 7: a task that gives up on a
+        # busy connection once `idle_timeout` has passed since the release): idle_timeout is None or any
+        # duration, and virtual time advances by an arbitrary amount before every poll of the task
+        has_to = ctx.choose([(True, False), (True, True)], "idle_timeout set")
+        d_to = z3.Int("idle_timeout")
+        ctx.assume(d_to >= 0)
+        inner = build_inner(ctx, nw, ni, False, False, False, 8, idle_timeout=d_to if has_to else None)
         shared = SharedV(inner, "pool")
         shared.alive = pool_alive
         ctx.shared = shared
@@ -359,6 +386,9 @@ def obligations(prog, src, tier, seed, which, select=None):
             polls = 0
             done = False
             while polls < cancel_after and not done:
+                dt = z3.Int(f"release_dt{polls}")
+                ctx.assume(dt >= 0)
+                ctx.now = ctx.now + dt
                 r = ctx.exec_fn(f_wr_poll, [Ref(wr), Ref(Cell(Opaque("Context"), "cx"))])
                 polls += 1
                 if r.variant == "Ready":
@@ -407,7 +437,7 @@ def obligations(prog, src, tier, seed, which, select=None):
         return props
 
     obs.append({"name": f"{which.lower()}_pool_release_path", "family": "pool_release_path", "funcs": ["<Pooled as Drop>::drop", "<WhenReady as Future>::poll", "<WhenReady as Drop>::drop", "client::pool::PoolRef::lock", "client::pool::PoolInner::push"],
-                "bound": "shareable or not, pool token zero/non-zero, pool alive or dropped, readiness scripts of <= 3 polls ending in Ok/Err/never, task cancelled after any number of polls, 0..1 idle entries before",
+                "bound": "shareable or not, pool token zero/non-zero, pool alive or dropped, idle_timeout None or any duration >= 0, an arbitrary amount of virtual time before every poll, readiness scripts of <= 3 polls ending in Ok/Err/never, task cancelled after any number of polls, 0..1 idle entries before",
                 "doc": "release -> hand-back: only non-shareable connections get a task; the connection re-enters the pool only when the task ends, only if open and pool-managed, at most once; never while still waiting for readiness; no deadlock on the pool mutex",
                 "run": run_release, "check": check_release, "crosscheck": False, "max_paths": 20000,
                 "cex_extract": extract_release, "judge": judge_release})
@@ -533,7 +563,9 @@ def obligations(prog, src, tier, seed, which, select=None):
     obs.append({"name": f"{which.lower()}_pool_register_connected", "family": "pool_register", "funcs": ["client::pool::checkout::register_connected", "client::pool::PoolInner::push", "client::pool::PoolRef::lock"],
                 "bound": "shareable or not, pool alive or dropped, 0..2 requests waiting for the attempt (each still waiting or gone), a second origin populated",
                 "doc": "a finished multiplexed attempt serves every waiting request and is stored for later ones, clearing the in-flight marker; a non-multiplexed connection goes only to the request that dialed it",
-                "run": run_register, "check": check_register, "crosscheck": False, "max_paths": 20000})
+                "run": run_register, "check": check_register, "crosscheck": False, "max_paths": 20000,
+                "cex_extract": lambda p, m: {"family": "pool_h2_followers", "max_idle": 8, "followers": live_waiters(p.ctx, m)} if p.ctx.share and p.ctx.pool_alive else None,
+                "judge": judge_h2_followers})
     if select:
         obs = [o for o in obs if o['family'] in select]
     return obs
